@@ -28,7 +28,7 @@ var deniedInit = []string{
 }
 
 var allowedInit = []string{
-	"net/netip", "internal/godebug", "internal/itoa", "internal/stringslite", "internal/byteorder",
+	"net/netip", "net/url", "internal/godebug", "internal/itoa", "internal/stringslite", "internal/byteorder",
 	"github.com/cespare/xxhash", "golang.org/x/net/http2/hpack", "internal/bisect", "internal/race", "internal/abi",
 	"internal/oserror", "internal/goarch", "internal/goos", "internal/unsafeheader", "internal/strconv",
 }
